@@ -299,6 +299,94 @@ theorem inv_run {Good : Bytes → Prop} (x : Bool) (evs : List Ev) :
         simp only [noSaveDuringBgsave, Bool.and_eq_true] at hx
         exact hx.2
 
+/-! ### every saver, with the save lock -/
+
+/-- every save in the schedule writes an acceptable file -/
+def jobsGoodL (Good : Bytes → Prop) (evs : List EvL) : Prop :=
+  ∀ e ∈ evs, ∀ j, e = .save j ∨ e = .bgsave j ∨ e = .shutdown j → Good j.chunks.flatten
+
+/-- the invariant of the locked machine: the files and the lock holder satisfy `Inv`, and every
+    waiting saver is going to write an acceptable file -/
+structure InvL (Good : Bytes → Prop) (s : SysL) : Prop where
+  core : Inv Good s.core
+  waiting : ∀ w ∈ s.waiting, Good w.2.chunks.flatten
+
+theorem invL_init (Good : Bytes → Prop) (old : Option Bytes) (h : ∀ b, old = some b → Good b) :
+    InvL Good (initSysL old) :=
+  ⟨inv_init Good old h, by simp [initSysL]⟩
+
+theorem inv_flag_of_nil {Good : Bytes → Prop} {s : Sys} (h : Inv Good s) (hnil : s.procs = []) : s.flag = false := by
+  cases hf : s.flag with
+  | false => rfl
+  | true =>
+    obtain ⟨p, hp, _⟩ := h.flagbg hf
+    rw [hnil] at hp
+    cases hp
+
+theorem invL_step {Good : Bytes → Prop} (s : SysL) (e : EvL) (h : InvL Good s)
+    (hjob : ∀ j, e = .save j ∨ e = .bgsave j ∨ e = .shutdown j → Good j.chunks.flatten) : InvL Good (stepL s e) := by
+  cases e with
+  | save j =>
+    simp only [stepL]
+    split
+    · exact ⟨inv_log h.core _, h.waiting⟩
+    · refine ⟨h.core, ?_⟩
+      intro w hw
+      simp only [List.mem_append, List.mem_singleton] at hw
+      cases hw with
+      | inl hw => exact h.waiting w hw
+      | inr hw => subst hw; exact hjob j (Or.inl rfl)
+  | bgsave j =>
+    simp only [stepL]
+    split
+    · exact ⟨inv_log h.core _, h.waiting⟩
+    · refine ⟨h.core, ?_⟩
+      intro w hw
+      simp only [List.mem_append, List.mem_singleton] at hw
+      cases hw with
+      | inl hw => exact h.waiting w hw
+      | inr hw => subst hw; exact hjob j (Or.inr (Or.inl rfl))
+  | shutdown j =>
+    simp only [stepL]
+    refine ⟨h.core, ?_⟩
+    intro w hw
+    simp only [List.mem_append, List.mem_singleton] at hw
+    cases hw with
+    | inl hw => exact h.waiting w hw
+    | inr hw => subst hw; exact hjob j (Or.inr (Or.inr rfl))
+  | grant i =>
+    simp only [stepL]
+    split
+    · rename_i bg j hnil hw
+      have hmem : (bg, j) ∈ s.waiting := List.mem_of_getElem? hw
+      refine ⟨?_, ?_⟩
+      · exact inv_start h.core hnil bg j (h.waiting _ hmem) bg (by simp)
+      · intro w hw'
+        exact h.waiting w (List.mem_of_mem_eraseIdx hw')
+    · exact h
+  | step =>
+    simp only [stepL]
+    split
+    · rename_i p hp
+      refine ⟨?_, h.waiting⟩
+      obtain ⟨core, flag, waiting⟩ := s
+      obtain ⟨fs, cflag, procs, log⟩ := core
+      simp only at hp
+      subst hp
+      exact inv_stepProc fs cflag p log h.core
+    · exact h
+
+theorem invL_run {Good : Bytes → Prop} (evs : List EvL) :
+    ∀ s, InvL Good s → jobsGoodL Good evs → InvL Good (runL s evs) := by
+  induction evs with
+  | nil => intro s h _; exact h
+  | cons e es ih =>
+    intro s h hj
+    simp only [runL, List.foldl_cons]
+    apply ih
+    · exact invL_step s e h (fun j hjj => hj e (by simp) j hjj)
+    · exact fun e' he' => hj e' (by simp [he'])
+
 /-! ### one save alone, in closed form -/
 
 theorem run_idle (x : Bool) (n : Nat) (s : Sys) (h : s.procs = []) : run x s (List.replicate n (.step 0)) = s := by
